@@ -577,6 +577,12 @@ func appendSeq(f *Func, obj types.Object) []string {
 			if o != nil && o == recv {
 				return "W"
 			}
+			// a local that only names another expression is rendered as that expression
+			if o != nil && isLocal(o) && !isParamOrRecv(f, o) {
+				if v := f.Resolve(x); v.Idx < 0 && ast.Unparen(v.E) != ast.Expr(x) {
+					return render(v.E)
+				}
+			}
 			if o != nil && isParamOrRecv(f, o) && isStringType(o.Type()) {
 				return "ORIGIN"
 			}
